@@ -61,43 +61,66 @@ def headers_ctor_own_store(p: Program) -> List[Item]:
 
 
 def headers_ctor_passthrough(p: Program) -> List[Item]:
+    """Decided on the paths of the constructor (private helpers inlined): every store into the dict that becomes the header
+    store has as key `<name of the pair>.lower()` and as value either the pair's value itself or `<what was there>, <value>`."""
+    from ..collect import run_paths
+    from ..flow import show, strparts, subterms
+
     init = _init(p)
     out: List[Item] = []
-    loops = [n for n in ast.walk(init.node) if isinstance(n, ast.For) and isinstance(n.target, ast.Tuple) and len(n.target.elts) == 2 and all(isinstance(e, ast.Name) for e in n.target.elts)]
-    if len(loops) != 1:
-        out.append(("undecided", init, None, "", f"Headers.__init__: expected one `for name, value in ...` loop, found {len(loops)}"))
-        return out
-    lp = loops[0]
-    kname, vname = lp.target.elts[0].id, lp.target.elts[1].id
+    paths, col, it = run_paths(p, init, p.cls(f"{DS}:Headers"))
+    n_item = 0
     bad = False
-    for n in ast.walk(lp):
-        tg = []
-        if isinstance(n, ast.Assign):
-            tg = [(t, n.value) for t in n.targets]
-        elif isinstance(n, (ast.AugAssign, ast.AnnAssign)) and n.value is not None:
-            tg = [(n.target, n.value)]
-        for t, v in tg:
-            if isinstance(t, ast.Name) and t.id == vname:
-                bad = True
-                out.append(("violation", init, n, f"value rewritten: {' '.join(ast.unparse(n).split())[:60]}",
-                            f"Headers.__init__ rewrites header VALUES ({' '.join(ast.unparse(n).split())[:60]}): what a request accessor parses (the Cookie header: a quoted value containing two spaces) or a "
-                            "middleware relays is no longer the text that was sent"))
-            elif isinstance(t, ast.Name) and t.id == kname:
-                if not (isinstance(v, ast.Call) and isinstance(v.func, ast.Attribute) and v.func.attr == "lower" and isinstance(v.func.value, ast.Name) and v.func.value.id == kname and not v.args):
+    seen_bad = set()
+
+    def pair_part(t, idx):
+        return t[0] == "unpack" and t[2] == idx and t[1][0] == "elem"
+
+    for pa in paths:
+        if pa.exit != "return":
+            continue
+        prev_vals = []
+        for e in pa.events:
+            if e.kind != "store" or e.a[0] != "sub":
+                continue
+            base, key, val = e.a[1], e.a[2], e.b
+            if base[0] not in ("dict", "call", "comp") and not (base[0] == "attr" and base[1] == ("param", "self")):
+                continue
+            node, _fn = col.nodes.get(e.tag, (None, init))
+            n_item += 1
+            txt = " ".join(ast.unparse(node).split())[:60] if node is not None else show(val)[:60]
+            # the key: <pair name>.lower()
+            okk = key[0] == "call" and key[1][0] == "attr" and key[1][2] == "lower" and not key[2] and pair_part(key[1][1], 0)
+            if not okk:
+                if ("k", txt) not in seen_bad:
+                    seen_bad.add(("k", txt))
                     bad = True
-                    out.append(("violation", init, n, f"name rewritten: {' '.join(ast.unparse(n).split())[:60]}", "Headers.__init__ rewrites header names by something other than lower-casing"))
-            elif isinstance(t, ast.Subscript):
-                # store[name] = value | f"{store[name]}, {value}"
-                okv = isinstance(v, ast.Name) and v.id == vname
-                if isinstance(v, ast.JoinedStr):
-                    parts = v.values
-                    okv = len(parts) == 3 and isinstance(parts[1], ast.Constant) and parts[1].value == ", " and isinstance(parts[2], ast.FormattedValue) and isinstance(parts[2].value, ast.Name) \
-                        and parts[2].value.id == vname and parts[2].conversion == -1 and parts[2].format_spec is None and isinstance(parts[0], ast.FormattedValue) and isinstance(parts[0].value, ast.Subscript)
-                if isinstance(v, ast.BinOp) and isinstance(v.op, ast.Add):
-                    okv = ast.unparse(v).replace('"', "'").endswith(f"+ ', ' + {vname}")
-                if not okv:
+                    out.append(("violation", init, node, f"name rewritten: {txt}", "Headers.__init__ rewrites header names by something other than lower-casing"))
+                continue
+            okv = pair_part(val, 1)
+            if not okv:
+                parts = strparts(val)
+                if parts is not None and len(parts) >= 3 and parts[-2] == ("const", ", ") and pair_part(parts[-1], 1) and parts[-1][1] == key[1][1][1]:
+                    pre = parts[:-2]
+                    if len(pre) == 1:
+                        old = pre[0]
+                        okv = old in prev_vals or (old[0] == "sub" and old[2] == key) or (old[0] == "call" and old[1][0] == "attr" and old[1][2] == "get" and old[2] and old[2][0] == key) \
+                            or show(old).startswith("loop") or any(st_[0] == "sub" and st_[2] == key for st_ in subterms(old))
+                    else:
+                        okv = any((strparts(pv) or [pv]) == pre for pv in prev_vals)
+            elif val[1] != key[1][1][1]:
+                okv = False  # the value of another pair
+            prev_vals.append(val)
+            if not okv:
+                if ("v", txt) not in seen_bad:
+                    seen_bad.add(("v", txt))
                     bad = True
-                    out.append(("violation", init, n, f"stored value: {ast.unparse(v)[:50]}", "Headers.__init__ stores something other than the given value (or the fold `old, new` of a repeated name)"))
-    if not bad:
-        out.append(("ok", init, None, "", "Headers.__init__ stores every value as given (names lower-cased, repeated names joined with ', ')"))
+                    rewritten = any(pair_part(t, 1) for t in subterms(val))
+                    out.append(("violation", init, node, (f"value rewritten: {txt}" if rewritten else f"stored value: {txt}"),
+                                f"Headers.__init__ stores something other than the given value or the fold `old, new` of a repeated name ({txt}): what a request accessor parses (the Cookie "
+                                "header: a quoted value containing two spaces) or a middleware relays is no longer the text that was sent"))
+    if n_item == 0:
+        out.append(("undecided", init, None, "", "Headers.__init__: no store of a (name, value) pair into the header store found on any path"))
+    elif not bad:
+        out.append(("ok", init, None, "", f"Headers.__init__ stores every value as given (names lower-cased, repeated names joined with ', ') on {len(paths)} paths"))
     return out
